@@ -392,7 +392,9 @@ func cmdCheck(args []string) int {
 				}
 				violations++
 				vioLines = append(vioLines, fmt.Sprintf("VIOLATION property=%s replay=%s", *propID, f))
-				ev.Coverage["violation_"+strconv.Itoa(violations)] = fmt.Sprintf("%s: %s at %s", c.j.Harness, c.v.Label, c.v.Pos)
+				if violations <= 5 {
+					ev.Coverage["violation_"+strconv.Itoa(violations)] = fmt.Sprintf("%s: %s at %s", c.j.Harness, c.v.Label, c.v.Pos)
+				}
 			} else if err == nil {
 				inconclusive = append(inconclusive, fmt.Sprintf("counterexample %s (%s: %s) does not reproduce natively: encoder or stub mismatch", f, c.j.Harness, c.v.Label))
 			}
